@@ -195,3 +195,111 @@ Theorem remove_under_panic_keeps_WInv w i a r panics : WInv w -> nth_error (pw_s
 Proof.
   intros HW Hi. unfold pw_remove, pw_remove_gen. rewrite remove_fact. exact (remove_keeps_WInv w i a r HW Hi).
 Qed.
+
+(** * Pushing a row (insert; the second half of a shape change) keeps the index consistent *)
+Definition pw_push (w : pworld) (i b : nat) : pworld :=
+  match nth_error (pw_archs w) b with
+  | None => w
+  | Some rows => mkPW (upd b (fun _ => rows ++ [i]) (pw_archs w)) (upd i (fun _ => Some (b, length rows)) (pw_slots w))
+  end.
+
+Theorem push_keeps_WInv w i b : WInv w -> nth_error (pw_slots w) i = Some None -> WInv (pw_push w i b).
+Proof.
+  intros [H1 H2] Hi. destruct w as [archs slots]. cbn [pw_slots pw_archs] in *. unfold pw_push. cbn [pw_archs pw_slots].
+  destruct (nth_error archs b) as [rows|] eqn:Eb; [|split; assumption].
+  assert (Hfree : forall a r, row_of (mkPW archs slots) a r <> Some i).
+  { intros a r Hr. apply H2 in Hr. congruence. }
+  split.
+  - intros j a' r' Hj. cbn [pw_slots] in Hj. rewrite row_of_upd_arch, Eb. rewrite nth_error_upd in Hj.
+    destruct (Nat.eqb_spec j i) as [->|Hji].
+    + rewrite Hi in Hj. cbn in Hj. inversion Hj; subst a' r'. rewrite Nat.eqb_refl. apply nth_error_app_last.
+    + pose proof (H1 j a' r' Hj) as Hw. destruct (Nat.eqb_spec a' b) as [->|Hne]; [|exact Hw].
+      unfold row_of in Hw. cbn [pw_archs] in Hw. rewrite Eb in Hw.
+      rewrite nth_error_app1; [exact Hw|apply nth_error_Some; congruence].
+  - intros a' r' j Hj. cbn [pw_slots]. rewrite row_of_upd_arch, Eb in Hj.
+    destruct (Nat.eqb_spec a' b) as [->|Hne].
+    + destruct (Nat.lt_ge_cases r' (length rows)) as [Hlt|Hge].
+      * rewrite nth_error_app1 in Hj by exact Hlt.
+        assert (Hs : nth_error slots j = Some (Some (b, r'))) by (apply H2; unfold row_of; cbn [pw_archs]; rewrite Eb; exact Hj).
+        assert (j <> i) by (intros ->; congruence).
+        rewrite nth_error_upd_other by assumption. exact Hs.
+      * rewrite nth_error_app2 in Hj by exact Hge.
+        destruct (r' - length rows) as [|k] eqn:Ek; cbn in Hj; [|destruct k; discriminate].
+        inversion Hj; subst j. assert (r' = length rows) by lia. subst r'.
+        rewrite nth_error_upd_same, Hi. reflexivity.
+    + pose proof (H2 a' r' j Hj) as Hs.
+      assert (j <> i) by (intros ->; congruence).
+      rewrite nth_error_upd_other by assumption. exact Hs.
+Qed.
+
+(** after the removal (with the slot released) the identifier is inactive: the two halves compose *)
+Lemma removed_slot_inactive w i a r : WInv w -> nth_error (pw_slots w) i = Some (Some (a, r)) ->
+  nth_error (pw_slots (pw_remove_rows (pw_free w i) a r)) i = Some None.
+Proof.
+  intros [H1 H2] Hi. destruct w as [archs slots]. cbn [pw_slots pw_archs] in *.
+  pose proof (H1 i a r Hi) as Hrow. unfold row_of in Hrow. cbn [pw_archs] in Hrow.
+  destruct (nth_error archs a) as [rows|] eqn:Ea; [|discriminate].
+  unfold pw_remove_rows, pw_free. cbn [pw_archs pw_slots]. rewrite Ea.
+  assert (Hr : r < length rows) by (apply nth_error_Some; congruence).
+  destruct (nth_error rows (length rows - 1)) as [z|] eqn:Ez; cbn [pw_slots].
+  - destruct (Nat.ltb_spec r (length rows - 1)) as [Hlt|Hge].
+    + assert (z <> i).
+      { intros ->.
+        assert (A1 : nth_error slots i = Some (Some (a, length rows - 1))) by (apply H2; unfold row_of; cbn [pw_archs]; rewrite Ea; exact Ez).
+        rewrite Hi in A1. inversion A1. lia. }
+      rewrite nth_error_upd_other by congruence. rewrite nth_error_upd_same, Hi. reflexivity.
+    + rewrite nth_error_upd_same, Hi. reflexivity.
+  - rewrite nth_error_upd_same, Hi. reflexivity.
+Qed.
+
+(** a shape change as the two halves: remove the row (the slot inactive in between), push it elsewhere *)
+Theorem move_keeps_WInv w i a r b : WInv w -> nth_error (pw_slots w) i = Some (Some (a, r)) ->
+  WInv (pw_push (pw_remove_rows (pw_free w i) a r) i b).
+Proof.
+  intros HW Hi. apply push_keeps_WInv; [exact (remove_keeps_WInv w i a r HW Hi)|exact (removed_slot_inactive w i a r HW Hi)].
+Qed.
+
+Lemma list_ext_nth_error {A} : forall (l m : list A), (forall k, nth_error l k = nth_error m k) -> l = m.
+Proof.
+  induction l as [|x l IH]; intros [|y m] H.
+  - reflexivity.
+  - specialize (H 0). discriminate.
+  - specialize (H 0). discriminate.
+  - pose proof (H 0) as H0. cbn in H0. inversion H0; subst. f_equal. apply IH. intros k. exact (H (S k)).
+Qed.
+
+(** [pw_move_row] (the moves in the order the code makes them: the slot is overwritten at the end, never
+    released in between) is that composition, the target archetype being there (it is created before the push) *)
+Lemma move_row_is_composition w i a r b : WInv w -> nth_error (pw_slots w) i = Some (Some (a, r)) ->
+  b < length (pw_archs w) ->
+  pw_move_row w i a r b = pw_push (pw_remove_rows (pw_free w i) a r) i b.
+Proof.
+  intros [H1 H2] Hi Hb. destruct w as [archs slots]. cbn [pw_slots pw_archs] in *.
+  pose proof (H1 i a r Hi) as Hrow. unfold row_of in Hrow. cbn [pw_archs] in Hrow.
+  destruct (nth_error archs a) as [rows|] eqn:Ea; [|discriminate].
+  unfold pw_move_row, pw_push, pw_remove_rows, pw_free. cbn [pw_archs pw_slots]. rewrite Ea.
+  cbn [pw_archs pw_slots].
+  destruct (nth_error (upd a (fun _ => swap_remove r rows) archs) b) as [rowsb|] eqn:Eb; cbn [pw_archs pw_slots].
+  2:{ apply nth_error_None in Eb. rewrite upd_length in Eb. lia. }
+  f_equal. apply list_ext_nth_error. intros k. rewrite !nth_error_upd.
+  destruct (nth_error rows (length rows - 1)) as [z|]; [destruct (Nat.ltb r (length rows - 1))|];
+    rewrite ?nth_error_upd;
+    destruct (Nat.eqb_spec k i) as [->|Hk]; rewrite ?Hi;
+    try destruct (Nat.eqb_spec i z); try destruct (Nat.eqb_spec k z); subst;
+    rewrite ?nth_error_upd, ?Nat.eqb_refl, ?Hi; cbn;
+    try (destruct (Nat.eqb_spec k i); [contradiction|]); try reflexivity.
+Qed.
+
+Theorem move_row_keeps_WInv w i a r b : WInv w -> nth_error (pw_slots w) i = Some (Some (a, r)) ->
+  b < length (pw_archs w) -> WInv (pw_move_row w i a r b).
+Proof.
+  intros HW Hi Hb. rewrite (move_row_is_composition w i a r b HW Hi Hb). exact (move_keeps_WInv w i a r b HW Hi).
+Qed.
+
+Theorem entry_remove_under_panic_keeps_WInv w i a r b panics : WInv w ->
+  nth_error (pw_slots w) i = Some (Some (a, r)) -> b < length (pw_archs w) ->
+  WInv (pw_entry_remove w i a r b panics).
+Proof.
+  intros HW Hi Hb. unfold pw_entry_remove, pw_entry_remove_gen. rewrite entry_remove_fact.
+  exact (move_row_keeps_WInv w i a r b HW Hi Hb).
+Qed.
